@@ -4,9 +4,9 @@ EXTENDS Integers, Sequences, FiniteSets, TLC, Json
 
 CONSTANTS MaxVals, MaxSteps, MaxDepth, EmitAll, CrossRemark
 
-Kinds == {"t", "tr", "u", "ur", "r", "uk"}   \* table+gc, table+gc resurrecting, userdata gc+release, same resurrecting, userdata release only,
+Kinds == {"t", "tr", "ta", "u", "ur", "r", "uk"}   \* table+gc, table+gc resurrecting, table+gc re-arming (its finaliser marks it again), userdata gc+release, same resurrecting, userdata release only,
                                            \* uk: userdata gc+release whose finaliser exhausts the CPU limit of its context (only created inside one)
-HasGc(k) == k \in {"t", "tr", "u", "ur", "uk"}
+HasGc(k) == k \in {"t", "tr", "ta", "u", "ur", "uk"}
 HasRel(k) == k \in {"u", "ur", "r", "uk"}
 Resurrects(k) == k \in {"tr", "ur"}
 
@@ -33,7 +33,7 @@ GNext ==
   /\ n < MaxSteps
   /\ \/ \E k \in Kinds : nvals < MaxVals /\ (k = "uk" => depth > 0) /\ GStep([a |-> "mk", id |-> nvals + 1, kind |-> k], nvals + 1, depth)
      \/ \E i \in 1..nvals : GStep([a |-> "drop", id |-> i, kind |-> "-"], nvals, depth)
-     \/ \E i \in 1..nvals : /\ i \notin DroppedOf(hist) /\ KindsOf(hist)[i] \in {"t", "tr"}
+     \/ \E i \in 1..nvals : /\ i \notin DroppedOf(hist) /\ KindsOf(hist)[i] \in {"t", "tr", "ta"}
                              /\ (CrossRemark \/ (depth = 0 /\ TopLevel(hist, i)))      \* re-marking in another context than the creating one
                              /\ Len(RemarksOf(hist)) < 2
                              /\ GStep([a |-> "remark", id |-> i, kind |-> "-"], nvals, depth)
